@@ -1,4 +1,5 @@
 import RbV.Ref.Gotoh
+import RbV.Gen.Limits
 /-
 Acceptance function for the banded aligner (C02).
 
@@ -10,8 +11,11 @@ optimum (band = whole matrix and the case is small enough to evaluate `opt`).
 -/
 namespace RbV.Align
 
-/-- `MAX_CELLS` of `banded.rs` -/
-def maxCells : Nat := 5000000
+/-- `MAX_CELLS` of `banded.rs`: the cell budget.  Not a copy: `RbV/Gen/Limits.lean` is regenerated from the source text
+on every `./check C02` (tools/gen_tables.py).  The documentation of `banded::Aligner` names the budget symbolically
+("… less than MAX_CELLS …"), so the acceptance function *follows* the constant of the tree under test; the number the
+doc comment adds in parentheses is compared with the constant by the driver's `docbudget` case. -/
+def maxCells : Nat := RbV.Gen.Limits.maxCells
 
 /-- the documented empty alignment: score `MIN_SCORE`, no operations, all coordinates and lengths 0 -/
 def isSentinel (o : Out) : Bool :=
